@@ -230,6 +230,35 @@ def gen_union(rng, view, cfg, depth, norec=False) -> dict:
     return {"k": "union", "sp": sp, "a": members}
 
 
+def one_order_per_member_set(world: dict, extra_types: list) -> None:
+    """Rewrite (in place) every union of the world and of ``extra_types`` so that unions with the same
+    member set use one member order throughout the run.  For checks whose property is not about
+    member order: two orders of one member set in one process is the recorded union-order-alias
+    finding (C08/C12 own it), and would otherwise be re-found through every other property."""
+    from .model import twalk
+
+    first: dict[str, list] = {}
+
+    def fix(t):
+        for n in twalk(t):
+            if n.get("k") == "union" and isinstance(n.get("a"), list):
+                key = core.jdump(sorted(core.jdump(m) for m in n["a"]))
+                if key in first:
+                    n["a"] = [x for x in map(lambda j: __import__("json").loads(j), first[key])]
+                else:
+                    first[key] = [core.jdump(m) for m in n["a"]]
+
+    for m in world.get("modules", ()):
+        for d in m.get("decls", ()):
+            if isinstance(d.get("t"), dict):
+                fix(d["t"])
+            for f in d.get("fields", ()):
+                if isinstance(f.get("t"), dict):
+                    fix(f["t"])
+    for t in extra_types:
+        fix(t)
+
+
 # --------------------------------------------------------------------------------------
 # worlds
 # --------------------------------------------------------------------------------------
@@ -330,7 +359,15 @@ def gen_struct(rng, view, cfg, name, *, depth=2, kind=None, hashable=False, futu
     elif kind == "typeddict":
         # Under `from __future__ import annotations` the interpreter itself cannot see
         # Required/NotRequired (the class is created from strings): no markers there.
-        if rng.random() < 0.3:
+        if len(fields) >= 2 and rng.random() < 0.3:
+            # mixed totality through inheritance: the first `split` keys come from a base class of one
+            # totality, the rest from the class itself with the other (no markers needed, so this also
+            # works under postponed evaluation); each field records whether it may be absent
+            d["split"] = rng.randint(1, len(fields) - 1)
+            d["base_total"] = rng.random() < 0.5
+            for i, f in enumerate(fields):
+                f["opt"] = not (d["base_total"] if i < d["split"] else not d["base_total"])
+        elif rng.random() < 0.3:
             d["total"] = False
             for f in fields:
                 if not future and rng.random() < 0.4:
@@ -699,7 +736,7 @@ def gen_pair(rng, t: dict, view_lookup: dict, cfg: Cfg, budget: int = 3, trace: 
         b2 = budget - 1 if it.get("rec") else budget
         for f in d["fields"]:
             if cat == "typeddict":
-                optional = f.get("nr") or (d.get("total", True) is False and not f.get("req"))
+                optional = f["opt"] if "opt" in f else (f.get("nr") or (d.get("total", True) is False and not f.get("req")))
                 if optional and rng.random() < 0.5:
                     continue
             fv, fw = gen_pair(rng, f["t"], view_lookup, cfg, b2, trace)
